@@ -1,3 +1,930 @@
-import Kurbo.Svg
+import Proofs.Lemmas.C16Num
+/-! # C16 (and the parser part of C14) – the SVG path parser `BezPath::from_svg`
+
+Everything is about the hand-written model `Kurbo/Svg.lean` exactly as it stands and holds for an arbitrary `[Scalar K]`
+(no arithmetic law is used), hence verbatim for the `Float` instantiation that is compared bit for bit with the crate.
+`panic` in `LR` / `SvgRes` models a Rust panic (`unget` at `ix = 0`; fuel exhaustion in `svgLoop`).
+Helper definitions and lemmas: `Proofs/Lemmas/C16.lean` (lexer), `C16Cmd` (one command), `C16Loop` (fuel), `C16Spec` (number
+grammar, lexer as a function of the unread bytes), `C16Step` (separators, chunks, arms of `svgCommand`), `C16Num` (malformed numbers).
+
+## Proved
+1. **Lexer invariants** (`skipWs_ix`, `digitsLoop_ix`, `expDigits_ix`, `getNumber_ix`, `optComma_ix`, `getFlag_ix`,
+   `getNumberPair_ix`, `getMaybeRelative_ix`, `getCmd_ix`, `getCmd_result`): every lexer function returns a lexer over the same bytes
+   whose index did not decrease and is still `≤ data.size`; the index increases strictly for every function that returns a value
+   (`getNumber`, `getFlag`, `getNumberPair`, `getMaybeRelative`).
+2. **No lexer function panics** (`digitsLoop_no_panic` … `getCmd_no_panic`): every `unget` follows a successful `getByte`
+   (`unget_after_getByte_ok`).
+3. `svgCommand_no_panic`, `svgCommand_progress`, `svgCommand_last_cmd`, `loop_iteration_progress` (one iteration of the loop
+   consumes at least one byte; needs – and preserves – the invariant `SvgSt.Inv`: `last_cmd` is never `z`/`Z`; a counterexample
+   without it is given).
+4. **`from_svg_total`, `from_svg_total_string`, `from_svg_total'`**: the parser never panics, the fuel `data.size + 1` always
+   suffices (`svgLoop_fuel_enough`), and more fuel changes nothing (`svgLoop_fuel_irrelevant`).
+5. **`parse_errors_*`**: `UninitializedPath` for a first letter other than `M`/`m` – known command or not, the test precedes the
+   unknown-command test (`parse_errors_uninitialized`, `…_cmd`); `UnknownCommand c` for any other byte on a non-empty path
+   (`parse_errors_unknown_cmd`); the complete case list `parse_errors_cmd`; the number/flag readers only ever fail with `Wrong` or
+   `UnexpectedEof` (`parse_errors_number`), `UnexpectedEof` exactly when only white space is left (`parse_errors_number_eof`),
+   `Wrong` when the first byte is no digit/sign/period (`parse_errors_number_start`).  Also stated, because it is what the model
+   (and the crate) does: a byte that is neither a letter nor – after a first command – a number start *ends the parse with `Ok`*
+   (`parse_stops_silently`): `from_svg "M1 2 #L3 4"` is `Ok [MoveTo (1,2)]`, `from_svg "1 2"` is `Ok []`.
+6. **`getNumber_spec`** in full generality (`getNumber_spec_at` anywhere in a buffer): white space, then a token of
+   `[+-]? (d+ ('.' d*)? | '.' d+) ([eE] [+-]? d+)?` (structure `NumParts` with the decidable predicate `NumParts.Valid`), then the end
+   of input or a byte that cannot continue the token (`NumParts.Stops`): `getNumber` returns `tokValue (parseTok token)` and stops
+   right behind the token.  Malformed shapes that give `Wrong`: no digit at all (`getNumber_wrong_without_digits`: `"+"`, `"."`,
+   `"-.x"`), exponent without digits (`getNumber_wrong_exponent_without_digits`: `"1e"`, `"1e+"`, `"2.5Ex"`).
+7. **Step lemmas**, for arbitrary white space, comma separators and number spellings (`NumChunk`, `PtChunk`, `FlagChunk`):
+   `cmd_*` = `svgCommand` on the spelled arguments of `Z M L H V Q T C S A` (absolute and relative); `loop_letter` /
+   `loop_implicit` / `step_letter` / `step_implicit` = how the loop reaches `svgCommand` for a spelled letter and for implicit
+   repetition (of *any* command); the combined `step_*` (`svgLoop (fuel+1) st (spelling ++ rest) = svgLoop fuel st' rest`) for
+   `Z M L H V Q T C S`, `step_lineTo_implicit`, `step_curveTo_implicit`, `step_end`; the fuel-free `run_step`; and a whole-string
+   instance `parse_moveTo_lineTo_close` (`ws* M x y x' y' ws* Z ws*` ⇒ `[MoveTo, LineTo, ClosePath]`) showing that they compose.
+8. Concrete evaluations over `Rat` by kernel evaluation (`decide +kernel`, no `native_decide`).
+
+## NOT proved here
+* `parse_render` (induction over an arbitrary command list) and the write→parse round trip (DESIGN targets) – only the step
+  lemmas they need and one composed instance.
+* Nothing about the *geometry* of the arc command: `cmd_arc` says which arguments are lexed and that the appended elements are
+  `arcElements …` (= the cubics of `Arc.from_svg_arc`, or a `LineTo`), not what those are.
+* `tokValue (parseTok tok)` is *the model's* value of a token; that `parseTok` computes the decimal value denoted by the digits
+  (and that Rust's `str::parse::<f64>` rounds it correctly) is not a theorem – it is tied by the bit-exact correspondence runs.
+* The grammar is given as a structure of parts (`NumParts`) with a decidable validity predicate, not as a recogniser on raw byte
+  lists; no theorem says that every byte list on which `getNumber` succeeds has such a decomposition (the converse of the spec).
+-/
+set_option linter.unusedSectionVars false
 namespace Kurbo
+variable {K : Type} [Scalar K]
+
+/-! ## 1. Lexer invariants: same bytes, index never decreases and stays inside the buffer
+
+`Lx.Le l l'` unfolds (`Lx.Le_iff`) to `l'.data = l.data ∧ l.ix ≤ l'.ix ∧ (l.ix ≤ l.data.size → l'.ix ≤ l'.data.size)`,
+`Lx.Lt` is the same with `l.ix < l'.ix`. -/
+
+theorem skipWs_ix (l : Lx) :
+    (skipWs l).data = l.data ∧ l.ix ≤ (skipWs l).ix ∧ (l.ix ≤ l.data.size → (skipWs l).ix ≤ (skipWs l).data.size) :=
+  Lx.Le_iff.mp (skipWs_le l)
+
+theorem digitsLoop_ix {l l' : Lx} {cnt n : Nat} {seen : Bool} (h : digitsLoop l cnt seen = .ok n l') :
+    l'.data = l.data ∧ l.ix ≤ l'.ix ∧ (l.ix ≤ l.data.size → l'.ix ≤ l'.data.size) ∧
+    -- it counts at most one digit per byte consumed
+    cnt ≤ n ∧ n - cnt ≤ l'.ix - l.ix := by
+  obtain ⟨h1, h2, h3⟩ := digitsLoop_ok h
+  exact ⟨h1.data, h1.ix, h1.wf, h2, h3⟩
+
+theorem expDigits_ix {l l' : Lx} {u : Unit} (h : expDigits l = .ok u l') :
+    l'.data = l.data ∧ l.ix ≤ l'.ix ∧ (l.ix ≤ l.data.size → l'.ix ≤ l'.data.size) :=
+  Lx.Le_iff.mp (expDigits_ok h)
+
+/-- `getNumber` consumed at least one byte (in fact at least one digit) -/
+theorem getNumber_ix {l l' : Lx} {x : K} (h : getNumber (K := K) l = .ok x l') :
+    l'.data = l.data ∧ l.ix < l'.ix ∧ (l.ix ≤ l.data.size → l'.ix ≤ l'.data.size) :=
+  Lx.Lt_iff.mp (getNumber_ok h)
+
+theorem optComma_ix {l l' : Lx} (h : optComma l = some l') :
+    l'.data = l.data ∧ l.ix ≤ l'.ix ∧ (l.ix ≤ l.data.size → l'.ix ≤ l'.data.size) :=
+  Lx.Le_iff.mp (optComma_le h)
+
+theorem getFlag_ix {l l' : Lx} {b : Bool} (h : getFlag l = .ok b l') :
+    l'.data = l.data ∧ l.ix < l'.ix ∧ (l.ix ≤ l.data.size → l'.ix ≤ l'.data.size) :=
+  Lx.Lt_iff.mp (getFlag_ok h)
+
+theorem getNumberPair_ix {l l' : Lx} {p : Point K} (h : getNumberPair (K := K) l = .ok p l') :
+    l'.data = l.data ∧ l.ix < l'.ix ∧ (l.ix ≤ l.data.size → l'.ix ≤ l'.data.size) :=
+  Lx.Lt_iff.mp (getNumberPair_ok h)
+
+theorem getMaybeRelative_ix {cmd : UInt8} {p q : Point K} {l l' : Lx} (h : getMaybeRelative cmd p l = .ok q l') :
+    l'.data = l.data ∧ l.ix < l'.ix ∧ (l.ix ≤ l.data.size → l'.ix ≤ l'.data.size) :=
+  Lx.Lt_iff.mp (getMaybeRelative_ok h)
+
+theorem getCmd_ix {lc : UInt8} {l l' : Lx} {oc : Option UInt8} (h : getCmd lc l = some (oc, l')) :
+    l'.data = l.data ∧ l.ix ≤ l'.ix ∧ (l.ix ≤ l.data.size → l'.ix ≤ l'.data.size) := by
+  rcases getCmd_cases lc l with ⟨l1, h1, hle⟩ | ⟨c, l1, h1, hc, hlt⟩ | ⟨c, l1, h1, hne, hg, hc⟩
+  · rw [h] at h1; simp only [Option.some.injEq, Prod.mk.injEq] at h1; obtain ⟨rfl, rfl⟩ := h1
+    exact ⟨hle.data, hle.ix, hle.wf⟩
+  · rw [h] at h1; simp only [Option.some.injEq, Prod.mk.injEq] at h1; obtain ⟨rfl, rfl⟩ := h1
+    exact ⟨hlt.data, Nat.le_of_lt hlt.ix, hlt.wf⟩
+  · rw [h] at h1; simp only [Option.some.injEq, Prod.mk.injEq] at h1; obtain ⟨rfl, rfl⟩ := h1
+    exact Lx.Le_iff.mp (skipWs_le l)
+
+/-- the three things `getCmd` can do: end the command loop (`none`) without moving past the white space; consume a letter (index
+    strictly larger); or – implicit repetition, only if there was a previous command – return that command and stay *at* a byte
+    that can start a number (sign, period, digit) -/
+theorem getCmd_result (lc : UInt8) (l : Lx) :
+    (∃ l', getCmd lc l = some (none, l') ∧ l.Le l') ∨
+    (∃ c l', getCmd lc l = some (some c, l') ∧ (isLower c || isUpper c) = true ∧ l.Lt l') ∨
+    (∃ c l1, getCmd lc l = some (some lc, skipWs l) ∧ lc ≠ 0 ∧ getByte (skipWs l) = some (c, l1) ∧ isNumStart c = true) :=
+  getCmd_cases lc l
+
+example : getCmd 0 ⟨"  L1".toUTF8, 0⟩ = some (some 76, ⟨"  L1".toUTF8, 3⟩) := by decide +kernel
+example : getCmd 76 ⟨" -1".toUTF8, 0⟩ = some (some 76, ⟨" -1".toUTF8, 1⟩) := by decide +kernel
+example : getCmd 0 ⟨" -1".toUTF8, 0⟩ = some (none, ⟨" -1".toUTF8, 1⟩) := by decide +kernel
+example : getNumber (K := Rat) ⟨" -1.5e1,".toUTF8, 0⟩ = .ok (-15) ⟨" -1.5e1,".toUTF8, 7⟩ := by decide +kernel
+example : digitsLoop ⟨"12.5.".toUTF8, 0⟩ 0 false = .ok 3 ⟨"12.5.".toUTF8, 4⟩ := by decide +kernel
+example : expDigits ⟨"12x".toUTF8, 0⟩ = .ok () ⟨"12x".toUTF8, 2⟩ := by decide +kernel
+example : optComma ⟨" ,1".toUTF8, 0⟩ = some ⟨" ,1".toUTF8, 2⟩ := by decide +kernel
+example : getFlag ⟨" 1".toUTF8, 0⟩ = .ok true ⟨" 1".toUTF8, 2⟩ := by decide +kernel
+example : getNumberPair (K := Rat) ⟨"1,2 ".toUTF8, 0⟩ = .ok ⟨1, 2⟩ ⟨"1,2 ".toUTF8, 4⟩ := by decide +kernel
+example : getMaybeRelative (K := Rat) 108 ⟨10, 20⟩ ⟨"1-2".toUTF8, 0⟩ = .ok ⟨11, 18⟩ ⟨"1-2".toUTF8, 3⟩ := by decide +kernel
+
+
+/-! ## 2. No lexer function panics: every `unget` follows a successful `getByte`, hence happens at `ix ≥ 1` -/
+
+/-- the reason: `unget` directly after `getByte` succeeds and restores the lexer -/
+theorem unget_after_getByte_ok {l l' : Lx} {c : UInt8} (h : getByte l = some (c, l')) : unget l' = some l :=
+  unget_after_getByte h
+
+example : getByte ⟨"ab".toUTF8, 1⟩ = some (98, ⟨"ab".toUTF8, 2⟩) := by decide +kernel
+
+theorem digitsLoop_no_panic (l : Lx) (cnt : Nat) (seen : Bool) : digitsLoop l cnt seen ≠ .panic :=
+  digitsLoop_ne_panic l cnt seen
+theorem expDigits_no_panic (l : Lx) : expDigits l ≠ .panic := expDigits_ne_panic l
+theorem getNumber_no_panic (l : Lx) : getNumber (K := K) l ≠ .panic := getNumber_ne_panic l
+/-- `optComma` returns `some` -/
+theorem optComma_no_panic (l : Lx) : ∃ l', optComma l = some l' := by
+  obtain ⟨l', h, _⟩ := optComma_some l; exact ⟨l', h⟩
+theorem getFlag_no_panic (l : Lx) : getFlag l ≠ .panic := getFlag_ne_panic l
+theorem getNumberPair_no_panic (l : Lx) : getNumberPair (K := K) l ≠ .panic := getNumberPair_ne_panic l
+theorem getMaybeRelative_no_panic (cmd : UInt8) (p : Point K) (l : Lx) : getMaybeRelative cmd p l ≠ .panic :=
+  getMaybeRelative_ne_panic cmd p l
+/-- `getCmd` returns `some` -/
+theorem getCmd_no_panic (lc : UInt8) (l : Lx) : ∃ r, getCmd lc l = some r := by
+  cases h : getCmd lc l with
+  | none => exact absurd h (getCmd_ne_panic lc l)
+  | some r => exact ⟨r, rfl⟩
+
+/-! ## 3. One command: no panic, progress -/
+
+/-- for every command byte, state and lexer the result of `svgCommand` is `.ok` or `.err`, never `.panic` -/
+theorem svgCommand_no_panic (c : UInt8) (st : SvgSt K) (l : Lx) : svgCommand c st l ≠ .panic := by
+  intro h; exact svgCommand_post h
+
+/-- on `.ok` the lexer did not move backwards; it moved forward by at least one byte unless the command is `z`/`Z`
+    (which reads nothing and returns the lexer unchanged); and `.ok` is only returned for the twenty known command letters -/
+theorem svgCommand_progress {c : UInt8} {st st' : SvgSt K} {l l' : Lx} (h : svgCommand c st l = .ok st' l') :
+    l'.data = l.data ∧ l.ix ≤ l'.ix ∧ (l.ix ≤ l.data.size → l'.ix ≤ l'.data.size) ∧
+    knownCmd (lowerCmd c) = true ∧ st'.path ≠ [] ∧
+    (c ≠ 122 → c ≠ 90 → l.ix < l'.ix) ∧ ((c = 122 ∨ c = 90) → l' = l) := by
+  obtain ⟨h1, h2, h3, -, h4, h5⟩ := svgCommand_post h
+  refine ⟨h1.data, h1.ix, h1.wf, h3, h2, ?_, ?_⟩
+  · intro hz hZ
+    exact (h4 (fun h => by rcases lowerCmd_eq_122.mp h with h | h <;> contradiction)).1.ix
+  · intro hz
+    exact (h5 (lowerCmd_eq_122.mpr hz)).1
+
+example : svgCommand (K := Rat) 76 { path := [.MoveTo ⟨0, 0⟩], first_pt := ⟨0, 0⟩, last_pt := ⟨0, 0⟩ } ⟨"L1 2".toUTF8, 1⟩ =
+    .ok { path := [.MoveTo ⟨0, 0⟩, .LineTo ⟨1, 2⟩], last_cmd := 76, last_ctrl := some ⟨1, 2⟩, first_pt := ⟨0, 0⟩, last_pt := ⟨1, 2⟩ }
+      ⟨"L1 2".toUTF8, 4⟩ := by decide +kernel
+
+/-- what a successful command leaves in `last_cmd`: the command itself (`M`/`m` leave `L`/`l`), and `z`/`Z` leave it untouched –
+    so `last_cmd` is never `z`/`Z` (`SvgSt.Inv`), which is why an implicitly repeated command always reads a number -/
+theorem svgCommand_last_cmd {c : UInt8} {st st' : SvgSt K} {l l' : Lx} (h : svgCommand c st l = .ok st' l') :
+    ((c = 109 ∨ c = 77) → st'.last_cmd = c - 1) ∧
+    ((c = 122 ∨ c = 90) → st'.last_cmd = st.last_cmd) ∧
+    (c ≠ 109 → c ≠ 77 → c ≠ 122 → c ≠ 90 → st'.last_cmd = c) ∧
+    (st.Inv → st'.Inv) := by
+  obtain ⟨-, -, -, -, h4, h5⟩ := svgCommand_post h
+  refine ⟨?_, fun hz => (h5 (lowerCmd_eq_122.mpr hz)).2, ?_, svgCommand_inv h⟩
+  · intro hm
+    have hlc : lowerCmd c = 109 := by rcases hm with rfl | rfl <;> decide
+    exact (h4 (by rw [hlc]; decide)).2.1 hlc
+  · intro h1 h2 h3 h4'
+    have hne : lowerCmd c ≠ 122 := fun h => by rcases lowerCmd_eq_122.mp h with h | h <;> contradiction
+    exact (h4 hne).2.2 (fun h => by rcases lowerCmd_eq_109 h with h | h <;> contradiction)
+
+/-- **one loop iteration consumes at least one byte**: if `getCmd` returns a command and `svgCommand` succeeds, the lexer index
+    is strictly larger than before `getCmd` – either `getCmd` consumed the command letter, or (implicit repetition) it consumed
+    nothing and the repeated command, which is never `z`, starts with a `getNumber` that consumes at least one byte -/
+theorem loop_iteration_progress {st st' : SvgSt K} {l l1 l2 : Lx} {c : UInt8} (hinv : st.Inv)
+    (hg : getCmd st.last_cmd l = some (some c, l1)) (hs : svgCommand c st l1 = .ok st' l2) :
+    l2.data = l.data ∧ l.ix < l2.ix ∧ (l.ix ≤ l.data.size → l2.ix ≤ l2.data.size) ∧ st'.Inv := by
+  rcases svgLoop_step st l hinv with ⟨l', h⟩ | ⟨c', l1', h, ⟨e, hs'⟩ | ⟨st'', l2', hs', hinv', hlt⟩⟩
+  · rw [hg] at h; simp at h
+  · rw [hg] at h; simp only [Option.some.injEq, Prod.mk.injEq] at h
+    obtain ⟨rfl, rfl⟩ := h
+    rw [hs] at hs'; simp at hs'
+  · rw [hg] at h; simp only [Option.some.injEq, Prod.mk.injEq] at h
+    obtain ⟨rfl, rfl⟩ := h
+    rw [hs] at hs'; simp only [LR.ok.injEq] at hs'
+    obtain ⟨rfl, rfl⟩ := hs'
+    exact ⟨hlt.data, hlt.ix, hlt.wf, hinv'⟩
+
+/-- the hypotheses are satisfiable: the implicit `L` in `"M0 0 1 2"` (state after the `M`, lexer behind `"M0 0"`) -/
+example :
+    let st : SvgSt Rat := { path := [.MoveTo ⟨0, 0⟩], last_cmd := 76, last_ctrl := some ⟨0, 0⟩, first_pt := ⟨0, 0⟩, last_pt := ⟨0, 0⟩ }
+    st.Inv ∧ getCmd st.last_cmd ⟨"M0 0 1 2".toUTF8, 4⟩ = some (some 76, ⟨"M0 0 1 2".toUTF8, 5⟩) ∧
+    svgCommand 76 st ⟨"M0 0 1 2".toUTF8, 5⟩ =
+      .ok { path := [.MoveTo ⟨0, 0⟩, .LineTo ⟨1, 2⟩], last_cmd := 76, last_ctrl := some ⟨1, 2⟩, first_pt := ⟨0, 0⟩, last_pt := ⟨1, 2⟩ }
+        ⟨"M0 0 1 2".toUTF8, 8⟩ :=
+  ⟨by show lowerCmd 76 ≠ 122; decide, by decide +kernel, by decide +kernel⟩
+
+/-- without the invariant the statement is false: with `last_cmd = 'z'` the iteration on `"1"` consumes nothing -/
+example : getCmd 122 ⟨"1".toUTF8, 0⟩ = some (some 122, ⟨"1".toUTF8, 0⟩) ∧
+    svgCommand (K := Rat) 122 { path := [.MoveTo ⟨0, 0⟩], last_cmd := 122, first_pt := ⟨0, 0⟩, last_pt := ⟨0, 0⟩ } ⟨"1".toUTF8, 0⟩ =
+      .ok { path := [.MoveTo ⟨0, 0⟩, .ClosePath], last_cmd := 122, first_pt := ⟨0, 0⟩, last_pt := ⟨0, 0⟩,
+            implicit_moveto := some ⟨0, 0⟩ } ⟨"1".toUTF8, 0⟩ := by decide +kernel
+
+
+/-! ## 4. Totality: `from_svg` never panics (C14 for the parser) -/
+
+/-- the fuel is never exhausted and no `unget` underflows: from a lexer inside its buffer and a state whose `last_cmd` is not
+    `z`/`Z`, any fuel larger than the number of remaining bytes gives a non-panic result -/
+theorem svgLoop_fuel_enough (fuel : Nat) (st : SvgSt K) (l : Lx) (hwf : l.ix ≤ l.data.size) (hinv : st.Inv)
+    (hf : l.data.size - l.ix < fuel) : svgLoop fuel st l ≠ .panic :=
+  svgLoop_ne_panic fuel st l hwf hinv hf
+
+/-- … and the result does not depend on how much larger the fuel is -/
+theorem svgLoop_fuel_irrelevant (f1 f2 : Nat) (st : SvgSt K) (l : Lx) (hwf : l.ix ≤ l.data.size) (hinv : st.Inv)
+    (h1 : l.data.size - l.ix < f1) (h2 : l.data.size - l.ix < f2) : svgLoop f1 st l = svgLoop f2 st l :=
+  svgLoop_fuel_irrel f1 f2 st l hwf hinv h1 h2
+
+/-- the hypotheses hold at the start of `fromSvgBytes`: index 0, initial state (`last_cmd = 0`), fuel `size + 1` -/
+example : (⟨"M1 2Z".toUTF8, 0⟩ : Lx).ix ≤ "M1 2Z".toUTF8.size ∧ (svgInit (K := Rat)).Inv ∧
+    "M1 2Z".toUTF8.size - 0 < "M1 2Z".toUTF8.size + 1 := ⟨by decide, svgInit_inv, by decide⟩
+
+/-- **THE no-panic theorem**: for every byte string the parser returns `Ok` or one of the four errors -/
+theorem from_svg_total (data : ByteArray) : fromSvgBytes (K := K) data ≠ .panic := fromSvgBytes_ne_panic data
+
+theorem from_svg_total_string (s : String) : fromSvg (K := K) s ≠ .panic := fromSvgBytes_ne_panic s.toUTF8
+
+/-- the same, in the form of DESIGN appendix A -/
+theorem from_svg_total' (s : String) : ∃ r, fromSvg (K := K) s = r ∧ r ≠ .panic := ⟨_, rfl, from_svg_total_string s⟩
+
+/-! ## 5. Which error when -/
+
+/-- (b′) a first command other than `M`/`m`: any byte other than `m`/`M` given to `svgCommand` on an empty path is
+    `UninitializedPath` – the test comes *before* the unknown-command test, so also for unknown letters -/
+theorem parse_errors_uninitialized_cmd (c : UInt8) (st : SvgSt K) (l : Lx) (h1 : c ≠ 109) (h2 : c ≠ 77)
+    (hp : st.path = []) : svgCommand c st l = .err .uninitializedPath := by
+  cases h : svgCommand c st l with
+  | panic => exact (svgCommand_post h).elim
+  | ok st' l' =>
+    obtain ⟨-, -, -, h3, -⟩ := svgCommand_post h
+    rcases h3 with h3 | h3 | h3 <;> contradiction
+  | err e =>
+    rcases svgCommand_post h with ⟨h3, -⟩ | ⟨h3, -⟩
+    · rw [h3]
+    · rcases h3 with h3 | h3 | h3 <;> contradiction
+
+/-- (a) if the first non-white-space byte of the input is a letter other than `m`/`M` – known command or not – the result is
+    `UninitializedPath` -/
+theorem parse_errors_uninitialized (data : ByteArray) (c : UInt8) (l1 : Lx)
+    (hg : getByte (skipWs ⟨data, 0⟩) = some (c, l1)) (hl : (isLower c || isUpper c) = true) (h1 : c ≠ 109) (h2 : c ≠ 77) :
+    fromSvgBytes (K := K) data = .err .uninitializedPath := by
+  have hcmd : getCmd 0 ⟨data, 0⟩ = some (some c, l1) := by
+    unfold getCmd; simp only [hg, hl, if_true]
+  unfold fromSvgBytes
+  exact svgLoop_step_err _ hcmd (parse_errors_uninitialized_cmd c _ l1 h1 h2 rfl)
+
+example : getByte (skipWs ⟨" L1 1".toUTF8, 0⟩) = some (76, ⟨" L1 1".toUTF8, 2⟩) := by decide +kernel
+example : fromSvg (K := Rat) "L1 1" = .err .uninitializedPath := by decide +kernel
+example : fromSvg (K := Rat) " X" = .err .uninitializedPath := by decide +kernel
+
+/-- (b) on a non-empty path a byte whose lower-case form (`lowerCmd`: `+32` for `A..Z`) is not one of `m l h v q t c s a z`
+    gives `UnknownCommand` with exactly that byte – in particular every letter other than `mMlLhHvVqQtTcCsSaAzZ` -/
+theorem parse_errors_unknown_cmd (c : UInt8) (st : SvgSt K) (l : Lx) (hk : knownCmd (lowerCmd c) = false)
+    (hp : st.path ≠ []) : svgCommand c st l = .err (.unknownCommand c) := by
+  cases h : svgCommand c st l with
+  | panic => exact (svgCommand_post h).elim
+  | ok st' l' =>
+    obtain ⟨-, -, h3, -⟩ := svgCommand_post h
+    rw [hk] at h3; simp at h3
+  | err e =>
+    rcases svgCommand_post h with ⟨-, -, -, h3⟩ | ⟨-, ⟨-, h3, -⟩ | ⟨h3, -⟩⟩
+    · exact absurd h3 hp
+    · rw [hk] at h3; simp at h3
+    · rw [h3]
+
+example : knownCmd (lowerCmd 88) = false := by decide
+example : fromSvg (K := Rat) "M1 2 X" = .err (.unknownCommand 88) := by decide +kernel
+example : fromSvg (K := Rat) "M1 2 b3" = .err (.unknownCommand 98) := by decide +kernel
+
+/-- the complete list of errors of one command, with the conditions under which each occurs -/
+theorem parse_errors_cmd {c : UInt8} {st : SvgSt K} {l : Lx} {e : SvgErr} (h : svgCommand c st l = .err e) :
+    (e = .uninitializedPath ∧ c ≠ 109 ∧ c ≠ 77 ∧ st.path = []) ∨
+    ((c = 109 ∨ c = 77 ∨ st.path ≠ []) ∧
+      (((e = .wrong ∨ e = .unexpectedEof) ∧ knownCmd (lowerCmd c) = true ∧ c ≠ 122 ∧ c ≠ 90) ∨
+       (e = .unknownCommand c ∧ knownCmd (lowerCmd c) = false))) := by
+  rcases svgCommand_post h with h1 | ⟨h1, ⟨h2, h3, h4⟩ | h2⟩
+  · exact .inl h1
+  · refine .inr ⟨h1, .inl ⟨h2, h3, ?_, ?_⟩⟩ <;> (intro hc; exact h4 (lowerCmd_eq_122.mpr (by simp [hc])))
+  · exact .inr ⟨h1, .inr h2⟩
+
+/-- (c) the lexer functions that read numbers and flags produce no other errors than `Wrong` and `UnexpectedEof` -/
+theorem parse_errors_number {l : Lx} {e : SvgErr} :
+    (getNumber (K := K) l = .err e → e = .wrong ∨ e = .unexpectedEof) ∧
+    (getFlag l = .err e → e = .wrong ∨ e = .unexpectedEof) ∧
+    (getNumberPair (K := K) l = .err e → e = .wrong ∨ e = .unexpectedEof) ∧
+    (∀ cmd (p : Point K), getMaybeRelative cmd p l = .err e → e = .wrong ∨ e = .unexpectedEof) :=
+  ⟨getNumber_err, getFlag_err, getNumberPair_err, fun _ _ => getMaybeRelative_err⟩
+
+/-- (c) `getNumber` says `UnexpectedEof` exactly when only white space is left -/
+theorem parse_errors_number_eof (l : Lx) :
+    getNumber (K := K) l = .err .unexpectedEof ↔ (skipWs l).data.size ≤ (skipWs l).ix :=
+  getNumber_eof_iff l
+
+/-- (c) a number position whose first non-white-space byte is not a digit, a sign or a period gives `Wrong` -/
+theorem parse_errors_number_start {l l1 : Lx} {c : UInt8} (hg : getByte (skipWs l) = some (c, l1))
+    (hd : isDigit c = false) (h43 : c ≠ 43) (h45 : c ≠ 45) (h46 : c ≠ 46) : getNumber (K := K) l = .err .wrong :=
+  getNumber_wrong_of_start hg hd h43 h45 h46
+
+example : getByte (skipWs ⟨" x".toUTF8, 0⟩) = some (120, ⟨" x".toUTF8, 2⟩) := by decide +kernel
+example : getNumber (K := Rat) ⟨"  ".toUTF8, 0⟩ = .err .unexpectedEof := by decide +kernel
+example : fromSvg (K := Rat) "M1e 2" = .err .wrong := by decide +kernel
+example : fromSvg (K := Rat) "M1 ." = .err .wrong := by decide +kernel
+example : fromSvg (K := Rat) "M1 +" = .err .wrong := by decide +kernel
+example : fromSvg (K := Rat) "M1 1e+" = .err .wrong := by decide +kernel
+example : fromSvg (K := Rat) "M1" = .err .unexpectedEof := by decide +kernel
+example : fromSvg (K := Rat) "M 1 2 A 1 1 0 2 0 3 3" = .err .wrong := by decide +kernel   -- flag must be 0/1
+
+/-- not an error, but what the model (and the crate) does with garbage: a byte that is neither a letter nor – once there was a
+    command – a sign, period or digit ends the parse loop, and the path read so far is returned as `Ok` -/
+theorem parse_stops_silently (fuel : Nat) (st : SvgSt K) (l l1 : Lx) (c : UInt8) (hg : getByte (skipWs l) = some (c, l1))
+    (hl : (isLower c || isUpper c) = false) (hn : st.last_cmd = 0 ∨ isNumStart c = false) :
+    svgLoop (fuel + 1) st l = .ok st.path := by
+  have hcmd : getCmd st.last_cmd l = some (none, skipWs l) := by
+    unfold getCmd
+    simp only [hg, hl, Bool.false_eq_true, if_false, unget_after_getByte hg]
+    have : (st.last_cmd != 0 && (c == 45 || c == 43 || c == 46 || isDigit c)) = false := by
+      rcases hn with h | h
+      · simp [h]
+      · unfold isNumStart at h; simp [h]
+    rw [if_neg (by simp [this])]; rfl
+  exact svgLoop_step_end fuel hcmd
+
+example : fromSvg (K := Rat) "M1 2 #L3 4" = .ok [.MoveTo ⟨1, 2⟩] := by decide +kernel
+example : fromSvg (K := Rat) "1 2" = .ok [] := by decide +kernel
+example : fromSvg (K := Rat) "" = .ok [] := by decide +kernel
+
+
+/-! ## 6. `getNumber_spec`
+
+The grammar `[+-]? (d+ ('.' d*)? | '.' d+) ([eE] [+-]? d+)?` is the structure `NumParts` (sign, digits before the period, period
+present?, digits after it, exponent present?, exponent letter, exponent sign, exponent digits) with
+`NumParts.Valid` (each part is what it should be, at least one mantissa digit, at least one exponent digit) and
+`NumParts.bytes` (the concatenation).  `p.Stops rest` says `rest` cannot continue the token: it is empty or starts with a
+non-digit that – if there is no exponent – is not `e`/`E` and – if there is neither exponent nor period – is not a period.
+`l.rem` are the unread bytes of `l`, `l.adv n` is `l` moved forward by `n`. -/
+
+/-- general form: anywhere in a buffer -/
+theorem getNumber_spec_at (l : Lx) (ws rest : List UInt8) (p : NumParts) (hv : p.Valid) (hs : p.Stops rest)
+    (hws : ∀ c ∈ ws, isWs c = true) (hrem : l.rem = ws ++ p.bytes ++ rest) :
+    getNumber (K := K) l = .ok (tokValue (parseTok p.bytes)) (l.adv (ws.length + p.bytes.length)) :=
+  getNumber_spec_rem l ws rest p hv hs hws hrem
+
+/-- the form of DESIGN appendix A: the buffer is `ws ++ token ++ rest`, read from index 0 -/
+theorem getNumber_spec (ws rest : List UInt8) (p : NumParts) (hv : p.Valid) (hs : p.Stops rest)
+    (hws : ∀ c ∈ ws, isWs c = true) :
+    getNumber (K := K) ⟨⟨(ws ++ p.bytes ++ rest).toArray⟩, 0⟩ =
+      .ok (tokValue (parseTok p.bytes)) ⟨⟨(ws ++ p.bytes ++ rest).toArray⟩, ws.length + p.bytes.length⟩ := by
+  have := getNumber_spec_rem (K := K) ⟨⟨(ws ++ p.bytes ++ rest).toArray⟩, 0⟩ ws rest p hv hs hws (by simp [Lx.rem])
+  rw [this]; simp [Lx.adv]
+
+/-- `" -12.5e+3,"`: white space, then sign `-`, digits `12`, period, digits `5`, exponent `e+3`, then a comma -/
+example : let p : NumParts := { sign := [45], ip := [49, 50], dot := true, fd := [53], hasExp := true, e := 101, esign := [43], ed := [51] }
+    p.Valid ∧ p.Stops [44] ∧ p.bytes = "-12.5e+3".toUTF8.data.toList ∧
+    getNumber (K := Rat) ⟨" -12.5e+3,".toUTF8, 0⟩ = .ok (-12500) ⟨" -12.5e+3,".toUTF8, 9⟩ := by
+  refine ⟨⟨by decide, by decide, by decide, by decide, by decide, by decide⟩, ?_, by decide, by decide +kernel⟩
+  intro c r h
+  simp only [List.cons.injEq] at h
+  rw [← h.1]; decide
+
+/-- `".5"` in front of a second period (as in the packed spelling `"0.5.5"` = two numbers) -/
+example : let p : NumParts := { ip := [], dot := true, fd := [53] }
+    p.Valid ∧ p.Stops [46, 53] := by
+  refine ⟨⟨by decide, by decide, by decide, by decide, by decide, by decide⟩, ?_⟩
+  intro c r h
+  simp only [List.cons.injEq] at h
+  rw [← h.1]; decide
+
+
+/-- malformed: a sign and/or a period with no digit at all (`"+"`, `"-."`, `"."`, `"+x"` …) gives `Wrong`, whatever follows
+    (`rest` = what comes after the sign/period: empty or not starting with a digit, nor with a period if none was read) -/
+theorem getNumber_wrong_without_digits (l : Lx) (ws sign rest : List UInt8) (dot : Bool)
+    (hws : ∀ c ∈ ws, isWs c = true) (hsign : IsSign sign) (hne : sign ≠ [] ∨ dot = true)
+    (hr : StopsAt (fun c => isDigit c || (c == 46 && !dot)) rest)
+    (hrem : l.rem = ws ++ (sign ++ ((if dot then [46] else []) ++ rest))) : getNumber (K := K) l = .err .wrong :=
+  getNumber_wrong_no_digits l ws sign rest dot hws hsign hne hr hrem
+
+example : IsSign [45] ∧ StopsAt (fun c => isDigit c || (c == 46 && !true)) [120] ∧
+    getNumber (K := Rat) ⟨" -.x".toUTF8, 0⟩ = .err .wrong := ⟨by decide, by decide, by decide +kernel⟩
+
+/-- malformed: a valid mantissa followed by `e`/`E`, an optional sign and then no digit (`"1e"`, `"1e+"`, `"2.5Ex"`, `"1e-,"` …)
+    gives `Wrong` – the parser does not back up to before the `e` -/
+theorem getNumber_wrong_exponent_without_digits (l : Lx) (ws rest : List UInt8) (p : NumParts) (e : UInt8)
+    (esign : List UInt8) (hv : p.Valid) (hnoexp : p.hasExp = false) (hws : ∀ c ∈ ws, isWs c = true)
+    (he : e = 101 ∨ e = 69) (hes : IsSign esign) (hr : StopsAt isDigit rest)
+    (hr' : esign = [] → StopsAt (fun c => c == 45 || c == 43) rest)
+    (hrem : l.rem = ws ++ p.bytes ++ (e :: esign ++ rest)) : getNumber (K := K) l = .err .wrong :=
+  getNumber_wrong_bad_exponent l ws rest p e esign hv hnoexp hws he hes hr hr' hrem
+
+example : ({ ip := [49] } : NumParts).Valid ∧ StopsAt isDigit [32] ∧
+    getNumber (K := Rat) ⟨"1e+ ".toUTF8, 0⟩ = .err .wrong := ⟨by decide, by decide, by decide +kernel⟩
+
+/-! ## 7. Step lemmas: one spelled command = one state update, for every choice of white space, separators and number spelling
+
+Vocabulary (all in `Proofs/Lemmas/C16Step.lean`): a `NumChunk` is `ws* number sep` with `sep = ws* ','?`; `k.Ok r` says its parts are
+well formed in front of the remaining bytes `r` (number valid, cannot be continued by `sep ++ r`, and `sep` is all that `optComma`
+will eat); `k.value` is `tokValue (parseTok number)`.  A `PtChunk` is two of them.  `relPt c last p` is `last + p` for a lower-case
+command `c` and `p` otherwise.  `st.flushed` is `st` after the pending implicit `MoveTo` (set by `Z`) has been pushed. -/
+
+/-- `Z` / `z` -/
+theorem step_close (fuel : Nat) (st : SvgSt K) (l : Lx) (ws r : List UInt8) (c : UInt8) (hc : c = 122 ∨ c = 90)
+    (hrem : l.rem = ws ++ c :: r) (hws : ∀ b ∈ ws, isWs b = true) (hp : st.path ≠ []) :
+    svgLoop (fuel + 1) st l =
+      svgLoop fuel
+        { st.flushed with
+            path := st.flushed.path ++ [.ClosePath], last_pt := st.first_pt, last_ctrl := none,
+            implicit_moveto := some st.first_pt }
+        (l.adv (ws.length + 1)) :=
+  svgLoop_step_ok fuel (getCmd_letter_rem _ hrem hws (by rcases hc with rfl | rfl <;> decide)) (svgCommand_close st _ hc hp)
+
+/-- `M x y` / `m x y` (no condition on the path; the following pairs are implicit `L`/`l`: `last_cmd := c - 1`) -/
+theorem step_moveTo (fuel : Nat) (st : SvgSt K) (l : Lx) (ws r : List UInt8) (c : UInt8) (hc : c = 109 ∨ c = 77)
+    (q : PtChunk) (hrem : l.rem = ws ++ c :: (q.bytes ++ r)) (hws : ∀ b ∈ ws, isWs b = true) (hq : q.Ok r) :
+    svgLoop (fuel + 1) st l =
+      svgLoop fuel
+        (let pt := relPt c st.last_pt q.value
+         { st with
+            implicit_moveto := none, path := st.path ++ [.MoveTo pt], last_pt := pt, first_pt := pt,
+            last_ctrl := some pt, last_cmd := c - 1 })
+        (l.adv (ws.length + 1 + q.bytes.length)) := by
+  have hg := getCmd_letter_rem st.last_cmd hrem hws (by rcases hc with rfl | rfl <;> decide)
+  have h1 : (l.adv (ws.length + 1)).rem = q.bytes ++ r := by
+    have : l.rem = (ws ++ [c]) ++ (q.bytes ++ r) := by rw [hrem]; simp
+    simpa using Lx.rem_adv this
+  rw [svgLoop_step_ok fuel hg (svgCommand_moveTo hc (getMaybeRelative_pt c st.last_pt h1 hq)), Lx.adv_adv]
+
+/-- `L x y` / `l x y` with the letter spelled out -/
+theorem step_lineTo (fuel : Nat) (st : SvgSt K) (l : Lx) (ws r : List UInt8) (c : UInt8) (hc : c = 108 ∨ c = 76)
+    (q : PtChunk) (hrem : l.rem = ws ++ c :: (q.bytes ++ r)) (hws : ∀ b ∈ ws, isWs b = true) (hq : q.Ok r)
+    (hp : st.path ≠ []) :
+    svgLoop (fuel + 1) st l =
+      svgLoop fuel
+        (let pt := relPt c st.last_pt q.value
+         { st.flushed with path := st.flushed.path ++ [.LineTo pt], last_ctrl := some pt, last_pt := pt, last_cmd := c })
+        (l.adv (ws.length + 1 + q.bytes.length)) := by
+  have hg := getCmd_letter_rem st.last_cmd hrem hws (by rcases hc with rfl | rfl <;> decide)
+  have h1 : (l.adv (ws.length + 1)).rem = q.bytes ++ r := by
+    have : l.rem = (ws ++ [c]) ++ (q.bytes ++ r) := by rw [hrem]; simp
+    simpa using Lx.rem_adv this
+  have hpre : svgPre c st = some st.flushed := svgPre_of_nonempty (by rcases hc with rfl | rfl <;> decide) hp
+  have hlc : lowerCmd c = 108 := by rcases hc with rfl | rfl <;> decide
+  have hm := getMaybeRelative_pt c st.flushed.last_pt h1 hq
+  rw [svgLoop_step_ok fuel hg (svgCommand_lineTo hlc hpre hm), Lx.adv_adv, SvgSt.flushed_last_pt]
+
+/-- implicit repetition: after `M`/`L` (`last_cmd = 'L'`) or `m`/`l` (`last_cmd = 'l'`) a further coordinate pair without a letter
+    is a `LineTo` -/
+theorem step_lineTo_implicit (fuel : Nat) (st : SvgSt K) (l : Lx) (r : List UInt8) (hc : st.last_cmd = 108 ∨ st.last_cmd = 76)
+    (q : PtChunk) (hrem : l.rem = q.bytes ++ r) (hq : q.Ok r) (hp : st.path ≠ []) :
+    svgLoop (fuel + 1) st l =
+      svgLoop fuel
+        (let pt := relPt st.last_cmd st.last_pt q.value
+         { st.flushed with path := st.flushed.path ++ [.LineTo pt], last_ctrl := some pt, last_pt := pt })
+        (l.adv q.bytes.length) := by
+  obtain ⟨b, br, hb, hnum⟩ := hq.1.valid.bytes_head
+  have hrem' : l.rem = q.x.ws ++ b :: (br ++ q.x.sep ++ q.y.bytes ++ r) := by
+    rw [hrem]; simp [PtChunk.bytes, NumChunk.bytes, hb]
+  have hg : getCmd st.last_cmd l = some (some st.last_cmd, l.adv q.x.ws.length) :=
+    getCmd_implicit_rem hrem' hq.1.ws hnum (by rcases hc with h | h <;> rw [h] <;> decide)
+  let q' : PtChunk := { x := q.x.noWs, y := q.y }
+  have hq' : q'.Ok r := ⟨hq.1.noWs, hq.2⟩
+  have h1 : (l.adv q.x.ws.length).rem = q'.bytes ++ r := by
+    have : l.rem = q.x.ws ++ (q'.bytes ++ r) := by
+      rw [hrem]; simp [PtChunk.bytes, q', NumChunk.bytes_noWs q.x]
+    exact Lx.rem_adv this
+  have hpre : svgPre st.last_cmd st = some st.flushed :=
+    svgPre_of_nonempty (by rcases hc with h | h <;> rw [h] <;> decide) hp
+  have hlc : lowerCmd st.last_cmd = 108 := by rcases hc with h | h <;> rw [h] <;> decide
+  have hm := getMaybeRelative_pt st.last_cmd st.flushed.last_pt h1 hq'
+  rw [svgLoop_step_ok fuel hg (svgCommand_lineTo hlc hpre hm), Lx.adv_adv, SvgSt.flushed_last_pt]
+  have hlen : q.x.ws.length + q'.bytes.length = q.bytes.length := by
+    simp [PtChunk.bytes, q', NumChunk.bytes, NumChunk.noWs]
+  rw [hlen]
+  have hst : ∀ pt : Point K,
+      ({ st.flushed with path := st.flushed.path ++ [.LineTo pt], last_ctrl := some pt, last_pt := pt,
+                         last_cmd := st.last_cmd } : SvgSt K) =
+      { st.flushed with path := st.flushed.path ++ [.LineTo pt], last_ctrl := some pt, last_pt := pt } := by
+    intro pt; rw [← SvgSt.flushed_last_cmd st]
+  exact congrArg (fun s => svgLoop fuel s (l.adv q.bytes.length)) (hst _)
+
+
+/-- `H x` / `h x` -/
+theorem step_horiz (fuel : Nat) (st : SvgSt K) (l : Lx) (ws r : List UInt8) (c : UInt8) (hc : c = 104 ∨ c = 72)
+    (k : NumChunk) (hrem : l.rem = ws ++ c :: (k.bytes ++ r)) (hws : ∀ b ∈ ws, isWs b = true) (hk : k.Ok r)
+    (hp : st.path ≠ []) :
+    svgLoop (fuel + 1) st l =
+      svgLoop fuel
+        (let pt : Point K := ⟨if c == 104 then Scalar.add k.value st.last_pt.x else k.value, st.last_pt.y⟩
+         { st.flushed with path := st.flushed.path ++ [.LineTo pt], last_ctrl := some pt, last_pt := pt, last_cmd := c })
+        (l.adv (ws.length + 1 + k.bytes.length)) := by
+  have hg := getCmd_letter_rem st.last_cmd hrem hws (by rcases hc with rfl | rfl <;> decide)
+  have h1 : (l.adv (ws.length + 1)).rem = k.bytes ++ r := by
+    have : l.rem = (ws ++ [c]) ++ (k.bytes ++ r) := by rw [hrem]; simp
+    simpa using Lx.rem_adv this
+  have hpre : svgPre c st = some st.flushed := svgPre_of_nonempty (by rcases hc with rfl | rfl <;> decide) hp
+  have hlc : lowerCmd c = 104 := by rcases hc with rfl | rfl <;> decide
+  obtain ⟨hn, ho⟩ := getNumber_chunk (K := K) h1 hk
+  rw [svgLoop_step_ok fuel hg (svgCommand_horiz hlc hpre hn ho), Lx.adv_adv, SvgSt.flushed_last_pt]
+
+/-- `V y` / `v y` -/
+theorem step_vert (fuel : Nat) (st : SvgSt K) (l : Lx) (ws r : List UInt8) (c : UInt8) (hc : c = 118 ∨ c = 86)
+    (k : NumChunk) (hrem : l.rem = ws ++ c :: (k.bytes ++ r)) (hws : ∀ b ∈ ws, isWs b = true) (hk : k.Ok r)
+    (hp : st.path ≠ []) :
+    svgLoop (fuel + 1) st l =
+      svgLoop fuel
+        (let pt : Point K := ⟨st.last_pt.x, if c == 118 then Scalar.add k.value st.last_pt.y else k.value⟩
+         { st.flushed with path := st.flushed.path ++ [.LineTo pt], last_ctrl := some pt, last_pt := pt, last_cmd := c })
+        (l.adv (ws.length + 1 + k.bytes.length)) := by
+  have hg := getCmd_letter_rem st.last_cmd hrem hws (by rcases hc with rfl | rfl <;> decide)
+  have h1 : (l.adv (ws.length + 1)).rem = k.bytes ++ r := by
+    have : l.rem = (ws ++ [c]) ++ (k.bytes ++ r) := by rw [hrem]; simp
+    simpa using Lx.rem_adv this
+  have hpre : svgPre c st = some st.flushed := svgPre_of_nonempty (by rcases hc with rfl | rfl <;> decide) hp
+  have hlc : lowerCmd c = 118 := by rcases hc with rfl | rfl <;> decide
+  obtain ⟨hn, ho⟩ := getNumber_chunk (K := K) h1 hk
+  rw [svgLoop_step_ok fuel hg (svgCommand_vert hlc hpre hn ho), Lx.adv_adv, SvgSt.flushed_last_pt]
+
+/-- `Q x1 y1 x y` / `q …` (both points relative to the *same* current point) -/
+theorem step_quadTo (fuel : Nat) (st : SvgSt K) (l : Lx) (ws r : List UInt8) (c : UInt8) (hc : c = 113 ∨ c = 81)
+    (q1 q2 : PtChunk) (hrem : l.rem = ws ++ c :: (q1.bytes ++ (q2.bytes ++ r))) (hws : ∀ b ∈ ws, isWs b = true)
+    (hq1 : q1.Ok (q2.bytes ++ r)) (hq2 : q2.Ok r) (hp : st.path ≠ []) :
+    svgLoop (fuel + 1) st l =
+      svgLoop fuel
+        (let p1 := relPt c st.last_pt q1.value
+         let p2 := relPt c st.last_pt q2.value
+         { st.flushed with path := st.flushed.path ++ [.QuadTo p1 p2], last_ctrl := some p1, last_pt := p2, last_cmd := c })
+        (l.adv (ws.length + 1 + q1.bytes.length + q2.bytes.length)) := by
+  have hg := getCmd_letter_rem st.last_cmd hrem hws (by rcases hc with rfl | rfl <;> decide)
+  have h1 : (l.adv (ws.length + 1)).rem = q1.bytes ++ (q2.bytes ++ r) := by
+    have : l.rem = (ws ++ [c]) ++ (q1.bytes ++ (q2.bytes ++ r)) := by rw [hrem]; simp
+    simpa using Lx.rem_adv this
+  have h2 := Lx.rem_adv h1
+  have hpre : svgPre c st = some st.flushed := svgPre_of_nonempty (by rcases hc with rfl | rfl <;> decide) hp
+  have hlc : lowerCmd c = 113 := by rcases hc with rfl | rfl <;> decide
+  have hm1 := getMaybeRelative_pt c st.flushed.last_pt h1 hq1
+  have hm2 := getMaybeRelative_pt c st.flushed.last_pt h2 hq2
+  rw [svgLoop_step_ok fuel hg (svgCommand_quadTo hlc hpre hm1 hm2), Lx.adv_adv, Lx.adv_adv, SvgSt.flushed_last_pt]
+  simp only [Nat.add_assoc]
+
+/-- `T x y` / `t x y`: the control point is `st.flushed.smoothQuadCtrl` – the reflection of `last_ctrl` about the current point if
+    the previous command was `Q q T t`, else the current point -/
+theorem step_smoothQuadTo (fuel : Nat) (st : SvgSt K) (l : Lx) (ws r : List UInt8) (c : UInt8) (hc : c = 116 ∨ c = 84)
+    (q : PtChunk) (hrem : l.rem = ws ++ c :: (q.bytes ++ r)) (hws : ∀ b ∈ ws, isWs b = true) (hq : q.Ok r)
+    (hp : st.path ≠ []) :
+    svgLoop (fuel + 1) st l =
+      svgLoop fuel
+        (let p1 := st.flushed.smoothQuadCtrl
+         let p2 := relPt c st.last_pt q.value
+         { st.flushed with path := st.flushed.path ++ [.QuadTo p1 p2], last_ctrl := some p1, last_pt := p2, last_cmd := c })
+        (l.adv (ws.length + 1 + q.bytes.length)) := by
+  have hg := getCmd_letter_rem st.last_cmd hrem hws (by rcases hc with rfl | rfl <;> decide)
+  have h1 : (l.adv (ws.length + 1)).rem = q.bytes ++ r := by
+    have : l.rem = (ws ++ [c]) ++ (q.bytes ++ r) := by rw [hrem]; simp
+    simpa using Lx.rem_adv this
+  have hpre : svgPre c st = some st.flushed := svgPre_of_nonempty (by rcases hc with rfl | rfl <;> decide) hp
+  have hlc : lowerCmd c = 116 := by rcases hc with rfl | rfl <;> decide
+  have hm := getMaybeRelative_pt c st.flushed.last_pt h1 hq
+  rw [svgLoop_step_ok fuel hg (svgCommand_smoothQuadTo hlc hpre hm), Lx.adv_adv, SvgSt.flushed_last_pt]
+
+/-- `C x1 y1 x2 y2 x y` / `c …` -/
+theorem step_curveTo (fuel : Nat) (st : SvgSt K) (l : Lx) (ws r : List UInt8) (c : UInt8) (hc : c = 99 ∨ c = 67)
+    (q1 q2 q3 : PtChunk) (hrem : l.rem = ws ++ c :: (q1.bytes ++ (q2.bytes ++ (q3.bytes ++ r))))
+    (hws : ∀ b ∈ ws, isWs b = true) (hq1 : q1.Ok (q2.bytes ++ (q3.bytes ++ r))) (hq2 : q2.Ok (q3.bytes ++ r)) (hq3 : q3.Ok r)
+    (hp : st.path ≠ []) :
+    svgLoop (fuel + 1) st l =
+      svgLoop fuel
+        (let p1 := relPt c st.last_pt q1.value
+         let p2 := relPt c st.last_pt q2.value
+         let p3 := relPt c st.last_pt q3.value
+         { st.flushed with path := st.flushed.path ++ [.CurveTo p1 p2 p3], last_ctrl := some p2, last_pt := p3, last_cmd := c })
+        (l.adv (ws.length + 1 + q1.bytes.length + q2.bytes.length + q3.bytes.length)) := by
+  have hg := getCmd_letter_rem st.last_cmd hrem hws (by rcases hc with rfl | rfl <;> decide)
+  have h1 : (l.adv (ws.length + 1)).rem = q1.bytes ++ (q2.bytes ++ (q3.bytes ++ r)) := by
+    have : l.rem = (ws ++ [c]) ++ (q1.bytes ++ (q2.bytes ++ (q3.bytes ++ r))) := by rw [hrem]; simp
+    simpa using Lx.rem_adv this
+  have h2 := Lx.rem_adv h1
+  have h3 := Lx.rem_adv h2
+  have hpre : svgPre c st = some st.flushed := svgPre_of_nonempty (by rcases hc with rfl | rfl <;> decide) hp
+  have hlc : lowerCmd c = 99 := by rcases hc with rfl | rfl <;> decide
+  have hm1 := getMaybeRelative_pt c st.flushed.last_pt h1 hq1
+  have hm2 := getMaybeRelative_pt c st.flushed.last_pt h2 hq2
+  have hm3 := getMaybeRelative_pt c st.flushed.last_pt h3 hq3
+  rw [svgLoop_step_ok fuel hg (svgCommand_curveTo hlc hpre hm1 hm2 hm3), Lx.adv_adv, Lx.adv_adv, Lx.adv_adv,
+    SvgSt.flushed_last_pt]
+  simp only [Nat.add_assoc]
+
+/-- `S x2 y2 x y` / `s …`: first control point `st.flushed.smoothCubicCtrl` (reflection only after `C c S s`) -/
+theorem step_smoothCurveTo (fuel : Nat) (st : SvgSt K) (l : Lx) (ws r : List UInt8) (c : UInt8) (hc : c = 115 ∨ c = 83)
+    (q1 q2 : PtChunk) (hrem : l.rem = ws ++ c :: (q1.bytes ++ (q2.bytes ++ r))) (hws : ∀ b ∈ ws, isWs b = true)
+    (hq1 : q1.Ok (q2.bytes ++ r)) (hq2 : q2.Ok r) (hp : st.path ≠ []) :
+    svgLoop (fuel + 1) st l =
+      svgLoop fuel
+        (let p1 := st.flushed.smoothCubicCtrl
+         let p2 := relPt c st.last_pt q1.value
+         let p3 := relPt c st.last_pt q2.value
+         { st.flushed with path := st.flushed.path ++ [.CurveTo p1 p2 p3], last_ctrl := some p2, last_pt := p3, last_cmd := c })
+        (l.adv (ws.length + 1 + q1.bytes.length + q2.bytes.length)) := by
+  have hg := getCmd_letter_rem st.last_cmd hrem hws (by rcases hc with rfl | rfl <;> decide)
+  have h1 : (l.adv (ws.length + 1)).rem = q1.bytes ++ (q2.bytes ++ r) := by
+    have : l.rem = (ws ++ [c]) ++ (q1.bytes ++ (q2.bytes ++ r)) := by rw [hrem]; simp
+    simpa using Lx.rem_adv this
+  have h2 := Lx.rem_adv h1
+  have hpre : svgPre c st = some st.flushed := svgPre_of_nonempty (by rcases hc with rfl | rfl <;> decide) hp
+  have hlc : lowerCmd c = 115 := by rcases hc with rfl | rfl <;> decide
+  have hm1 := getMaybeRelative_pt c st.flushed.last_pt h1 hq1
+  have hm2 := getMaybeRelative_pt c st.flushed.last_pt h2 hq2
+  rw [svgLoop_step_ok fuel hg (svgCommand_smoothCurveTo hlc hpre hm1 hm2), Lx.adv_adv, Lx.adv_adv, SvgSt.flushed_last_pt]
+  simp only [Nat.add_assoc]
+
+/-! ### the same at the level of `svgCommand`, and implicit repetition for *every* command
+
+`cmd_*`: the command byte has been read, the lexer is in front of the arguments.  `loop_letter` / `loop_implicit` say how the loop
+gets there (`svgAfterCmd fuel st c l1` = "run `svgCommand c st l1`, stop on an error, else continue the loop").  The `step_*`
+theorems above are `loop_letter` + `cmd_*`; `loop_implicit` + `cmd_*` gives the implicit repetition of any command. -/
+
+theorem loop_letter (fuel : Nat) (st : SvgSt K) {l : Lx} {ws r : List UInt8} {c : UInt8} (h : l.rem = ws ++ c :: r)
+    (hws : ∀ b ∈ ws, isWs b = true) (hc : (isLower c || isUpper c) = true) :
+    svgLoop (fuel + 1) st l = svgAfterCmd fuel st c (l.adv (ws.length + 1)) :=
+  svgLoop_letter fuel st h hws hc
+
+/-- implicit repetition: if the next non-white-space byte is a sign, a period or a digit and there was a command before (which
+    is never `z`: `st.Inv`), the loop behaves as if `last_cmd` were spelled at the current position – `getCmd` consumes only
+    the white space, and that does not matter to a command that starts by reading a number -/
+theorem loop_implicit (fuel : Nat) (st : SvgSt K) {l : Lx} {ws r : List UInt8} {b : UInt8} (h : l.rem = ws ++ b :: r)
+    (hws : ∀ b ∈ ws, isWs b = true) (hb : isNumStart b = true) (hlc : st.last_cmd ≠ 0) (hinv : st.Inv) :
+    svgLoop (fuel + 1) st l = svgAfterCmd fuel st st.last_cmd l :=
+  svgLoop_implicit fuel st h hws hb hlc hinv
+
+theorem cmd_close (st : SvgSt K) (l : Lx) (c : UInt8) (hc : c = 122 ∨ c = 90) (hp : st.path ≠ []) :
+    svgCommand c st l =
+      .ok { st.flushed with
+              path := st.flushed.path ++ [.ClosePath], last_pt := st.first_pt, last_ctrl := none,
+              implicit_moveto := some st.first_pt } l :=
+  svgCommand_close st l hc hp
+
+theorem cmd_moveTo (st : SvgSt K) (l : Lx) (r : List UInt8) (c : UInt8) (hc : c = 109 ∨ c = 77) (q : PtChunk)
+    (hrem : l.rem = q.bytes ++ r) (hq : q.Ok r) :
+    svgCommand c st l =
+      .ok (let pt := relPt c st.last_pt q.value
+           { st with
+              implicit_moveto := none, path := st.path ++ [.MoveTo pt], last_pt := pt, first_pt := pt,
+              last_ctrl := some pt, last_cmd := c - 1 })
+        (l.adv q.bytes.length) :=
+  svgCommand_moveTo hc (getMaybeRelative_pt c st.last_pt hrem hq)
+
+theorem cmd_lineTo (st : SvgSt K) (l : Lx) (r : List UInt8) (c : UInt8) (hc : c = 108 ∨ c = 76) (q : PtChunk)
+    (hrem : l.rem = q.bytes ++ r) (hq : q.Ok r) (hp : st.path ≠ []) :
+    svgCommand c st l =
+      .ok (let pt := relPt c st.last_pt q.value
+           { st.flushed with path := st.flushed.path ++ [.LineTo pt], last_ctrl := some pt, last_pt := pt, last_cmd := c })
+        (l.adv q.bytes.length) := by
+  have hpre : svgPre c st = some st.flushed := svgPre_of_nonempty (by rcases hc with rfl | rfl <;> decide) hp
+  have hlc : lowerCmd c = 108 := by rcases hc with rfl | rfl <;> decide
+  rw [svgCommand_lineTo hlc hpre (getMaybeRelative_pt c st.flushed.last_pt hrem hq), SvgSt.flushed_last_pt]
+
+theorem cmd_horiz (st : SvgSt K) (l : Lx) (r : List UInt8) (c : UInt8) (hc : c = 104 ∨ c = 72) (k : NumChunk)
+    (hrem : l.rem = k.bytes ++ r) (hk : k.Ok r) (hp : st.path ≠ []) :
+    svgCommand c st l =
+      .ok (let pt : Point K := ⟨if c == 104 then Scalar.add k.value st.last_pt.x else k.value, st.last_pt.y⟩
+           { st.flushed with path := st.flushed.path ++ [.LineTo pt], last_ctrl := some pt, last_pt := pt, last_cmd := c })
+        (l.adv k.bytes.length) := by
+  have hpre : svgPre c st = some st.flushed := svgPre_of_nonempty (by rcases hc with rfl | rfl <;> decide) hp
+  have hlc : lowerCmd c = 104 := by rcases hc with rfl | rfl <;> decide
+  obtain ⟨hn, ho⟩ := getNumber_chunk (K := K) hrem hk
+  rw [svgCommand_horiz hlc hpre hn ho, SvgSt.flushed_last_pt]
+
+theorem cmd_vert (st : SvgSt K) (l : Lx) (r : List UInt8) (c : UInt8) (hc : c = 118 ∨ c = 86) (k : NumChunk)
+    (hrem : l.rem = k.bytes ++ r) (hk : k.Ok r) (hp : st.path ≠ []) :
+    svgCommand c st l =
+      .ok (let pt : Point K := ⟨st.last_pt.x, if c == 118 then Scalar.add k.value st.last_pt.y else k.value⟩
+           { st.flushed with path := st.flushed.path ++ [.LineTo pt], last_ctrl := some pt, last_pt := pt, last_cmd := c })
+        (l.adv k.bytes.length) := by
+  have hpre : svgPre c st = some st.flushed := svgPre_of_nonempty (by rcases hc with rfl | rfl <;> decide) hp
+  have hlc : lowerCmd c = 118 := by rcases hc with rfl | rfl <;> decide
+  obtain ⟨hn, ho⟩ := getNumber_chunk (K := K) hrem hk
+  rw [svgCommand_vert hlc hpre hn ho, SvgSt.flushed_last_pt]
+
+theorem cmd_quadTo (st : SvgSt K) (l : Lx) (r : List UInt8) (c : UInt8) (hc : c = 113 ∨ c = 81) (q1 q2 : PtChunk)
+    (hrem : l.rem = q1.bytes ++ (q2.bytes ++ r)) (hq1 : q1.Ok (q2.bytes ++ r)) (hq2 : q2.Ok r) (hp : st.path ≠ []) :
+    svgCommand c st l =
+      .ok (let p1 := relPt c st.last_pt q1.value
+           let p2 := relPt c st.last_pt q2.value
+           { st.flushed with path := st.flushed.path ++ [.QuadTo p1 p2], last_ctrl := some p1, last_pt := p2, last_cmd := c })
+        (l.adv (q1.bytes.length + q2.bytes.length)) := by
+  have hpre : svgPre c st = some st.flushed := svgPre_of_nonempty (by rcases hc with rfl | rfl <;> decide) hp
+  have hlc : lowerCmd c = 113 := by rcases hc with rfl | rfl <;> decide
+  have hm1 := getMaybeRelative_pt c st.flushed.last_pt hrem hq1
+  have hm2 := getMaybeRelative_pt c st.flushed.last_pt (Lx.rem_adv hrem) hq2
+  rw [svgCommand_quadTo hlc hpre hm1 hm2, Lx.adv_adv, SvgSt.flushed_last_pt]
+
+theorem cmd_smoothQuadTo (st : SvgSt K) (l : Lx) (r : List UInt8) (c : UInt8) (hc : c = 116 ∨ c = 84) (q : PtChunk)
+    (hrem : l.rem = q.bytes ++ r) (hq : q.Ok r) (hp : st.path ≠ []) :
+    svgCommand c st l =
+      .ok (let p1 := st.flushed.smoothQuadCtrl
+           let p2 := relPt c st.last_pt q.value
+           { st.flushed with path := st.flushed.path ++ [.QuadTo p1 p2], last_ctrl := some p1, last_pt := p2, last_cmd := c })
+        (l.adv q.bytes.length) := by
+  have hpre : svgPre c st = some st.flushed := svgPre_of_nonempty (by rcases hc with rfl | rfl <;> decide) hp
+  have hlc : lowerCmd c = 116 := by rcases hc with rfl | rfl <;> decide
+  rw [svgCommand_smoothQuadTo hlc hpre (getMaybeRelative_pt c st.flushed.last_pt hrem hq), SvgSt.flushed_last_pt]
+
+theorem cmd_curveTo (st : SvgSt K) (l : Lx) (r : List UInt8) (c : UInt8) (hc : c = 99 ∨ c = 67) (q1 q2 q3 : PtChunk)
+    (hrem : l.rem = q1.bytes ++ (q2.bytes ++ (q3.bytes ++ r))) (hq1 : q1.Ok (q2.bytes ++ (q3.bytes ++ r)))
+    (hq2 : q2.Ok (q3.bytes ++ r)) (hq3 : q3.Ok r) (hp : st.path ≠ []) :
+    svgCommand c st l =
+      .ok (let p1 := relPt c st.last_pt q1.value
+           let p2 := relPt c st.last_pt q2.value
+           let p3 := relPt c st.last_pt q3.value
+           { st.flushed with path := st.flushed.path ++ [.CurveTo p1 p2 p3], last_ctrl := some p2, last_pt := p3, last_cmd := c })
+        (l.adv (q1.bytes.length + q2.bytes.length + q3.bytes.length)) := by
+  have hpre : svgPre c st = some st.flushed := svgPre_of_nonempty (by rcases hc with rfl | rfl <;> decide) hp
+  have hlc : lowerCmd c = 99 := by rcases hc with rfl | rfl <;> decide
+  have h2 := Lx.rem_adv hrem
+  have hm1 := getMaybeRelative_pt c st.flushed.last_pt hrem hq1
+  have hm2 := getMaybeRelative_pt c st.flushed.last_pt h2 hq2
+  have hm3 := getMaybeRelative_pt c st.flushed.last_pt (Lx.rem_adv h2) hq3
+  rw [svgCommand_curveTo hlc hpre hm1 hm2 hm3, Lx.adv_adv, Lx.adv_adv, SvgSt.flushed_last_pt]
+  simp only [Nat.add_assoc]
+
+theorem cmd_smoothCurveTo (st : SvgSt K) (l : Lx) (r : List UInt8) (c : UInt8) (hc : c = 115 ∨ c = 83) (q1 q2 : PtChunk)
+    (hrem : l.rem = q1.bytes ++ (q2.bytes ++ r)) (hq1 : q1.Ok (q2.bytes ++ r)) (hq2 : q2.Ok r) (hp : st.path ≠ []) :
+    svgCommand c st l =
+      .ok (let p1 := st.flushed.smoothCubicCtrl
+           let p2 := relPt c st.last_pt q1.value
+           let p3 := relPt c st.last_pt q2.value
+           { st.flushed with path := st.flushed.path ++ [.CurveTo p1 p2 p3], last_ctrl := some p2, last_pt := p3, last_cmd := c })
+        (l.adv (q1.bytes.length + q2.bytes.length)) := by
+  have hpre : svgPre c st = some st.flushed := svgPre_of_nonempty (by rcases hc with rfl | rfl <;> decide) hp
+  have hlc : lowerCmd c = 115 := by rcases hc with rfl | rfl <;> decide
+  have hm1 := getMaybeRelative_pt c st.flushed.last_pt hrem hq1
+  have hm2 := getMaybeRelative_pt c st.flushed.last_pt (Lx.rem_adv hrem) hq2
+  rw [svgCommand_smoothCurveTo hlc hpre hm1 hm2, Lx.adv_adv, SvgSt.flushed_last_pt]
+
+/-- `A rx ry x-rotation large-arc sweep x y` / `a …`: the lexing of the seven arguments (two flags: one byte `0`/`1` each, so they
+    may be packed); the appended elements are `arcElements …` = the cubics of `Arc.from_svg_arc` (or a `LineTo` if it returns
+    `none`) – nothing is proved here about that geometry -/
+theorem cmd_arc (st : SvgSt K) (l : Lx) (r : List UInt8) (c : UInt8) (hc : c = 97 ∨ c = 65)
+    (qr : PtChunk) (kx : NumChunk) (f1 f2 : FlagChunk) (qp : PtChunk)
+    (hrem : l.rem = qr.bytes ++ (kx.bytes ++ (f1.bytes ++ (f2.bytes ++ (qp.bytes ++ r)))))
+    (hqr : qr.Ok (kx.bytes ++ (f1.bytes ++ (f2.bytes ++ (qp.bytes ++ r))))) (hkx : kx.Ok (f1.bytes ++ (f2.bytes ++ (qp.bytes ++ r))))
+    (hf1 : f1.Ok (f2.bytes ++ (qp.bytes ++ r))) (hf2 : f2.Ok (qp.bytes ++ r)) (hqp : qp.Ok r) (hp : st.path ≠ []) :
+    svgCommand c st l =
+      .ok (let p := relPt c st.last_pt qp.value
+           { st.flushed with
+              path := st.flushed.path ++ arcElements st.last_pt p qr.value kx.value f1.value f2.value,
+              last_ctrl := some p, last_pt := p, last_cmd := c })
+        (l.adv (qr.bytes.length + kx.bytes.length + f1.bytes.length + f2.bytes.length + qp.bytes.length)) := by
+  have hpre : svgPre c st = some st.flushed := svgPre_of_nonempty (by rcases hc with rfl | rfl <;> decide) hp
+  have hlc : lowerCmd c = 97 := by rcases hc with rfl | rfl <;> decide
+  have h1 : l.rem = qr.x.bytes ++ (qr.y.bytes ++ (kx.bytes ++ (f1.bytes ++ (f2.bytes ++ (qp.bytes ++ r))))) := by
+    rw [hrem]; simp [PtChunk.bytes]
+  have hpair := getNumberPair_spec (K := K) h1 hqr.1 hqr.2
+  rw [← List.length_append] at hpair
+  have h2 : (l.adv qr.bytes.length).rem = kx.bytes ++ (f1.bytes ++ (f2.bytes ++ (qp.bytes ++ r))) := Lx.rem_adv hrem
+  obtain ⟨hn, ho⟩ := getNumber_chunk (K := K) h2 hkx
+  have h3 := Lx.rem_adv h2
+  obtain ⟨hfa, hoa⟩ := getFlag_chunk h3 hf1
+  have h4 := Lx.rem_adv h3
+  obtain ⟨hfb, hob⟩ := getFlag_chunk h4 hf2
+  have h5 := Lx.rem_adv h4
+  have hm := getMaybeRelative_pt c st.flushed.last_pt h5 hqp
+  rw [svgCommand_arc hlc hpre hpair hn ho hfa hoa hfb hob hm, Lx.adv_adv, Lx.adv_adv, Lx.adv_adv, Lx.adv_adv,
+    SvgSt.flushed_last_pt]
+  simp only [Nat.add_assoc]
+  rfl
+
+/-- the arguments of `"A1 1 0 0 1 2 2"` (after the letter) meet the hypotheses of `cmd_arc` -/
+example :
+    let n (d : UInt8) (sep : List UInt8) : NumChunk := { p := { ip := [d] }, sep := sep }
+    let qr : PtChunk := { x := n 49 [32], y := n 49 [32] }
+    let kx : NumChunk := n 48 [32]
+    let f1 : FlagChunk := { flag := 48, sep := [32] }
+    let f2 : FlagChunk := { flag := 49, sep := [32] }
+    let qp : PtChunk := { x := n 50 [32], y := n 50 [] }
+    "1 1 0 0 1 2 2".toUTF8.data.toList = qr.bytes ++ (kx.bytes ++ (f1.bytes ++ (f2.bytes ++ (qp.bytes ++ [])))) ∧
+    qr.Ok (kx.bytes ++ (f1.bytes ++ (f2.bytes ++ (qp.bytes ++ [])))) ∧ kx.Ok (f1.bytes ++ (f2.bytes ++ (qp.bytes ++ []))) ∧
+    f1.Ok (f2.bytes ++ (qp.bytes ++ [])) ∧ f2.Ok (qp.bytes ++ []) ∧ qp.Ok [] := by
+  refine ⟨by decide, ⟨⟨by decide, by decide, by decide, SepOk.ws (by decide) (by decide)⟩,
+      ⟨by decide, by decide, by decide, SepOk.ws (by decide) (by decide)⟩⟩,
+    ⟨by decide, by decide, by decide, SepOk.ws (by decide) (by decide)⟩,
+    ⟨by decide, by decide, SepOk.ws (by decide) (by decide)⟩,
+    ⟨by decide, by decide, SepOk.ws (by decide) (by decide)⟩,
+    ⟨⟨by decide, by decide, by decide, SepOk.ws (by decide) (by decide)⟩,
+      ⟨by decide, by decide, by decide, SepOk.ws (by decide) (by decide)⟩⟩⟩
+
+/-- glue for a spelled letter: from a `cmd_*` result to a loop step -/
+theorem step_letter (fuel : Nat) (st st' : SvgSt K) {l l2 : Lx} {ws r : List UInt8} {c : UInt8} (h : l.rem = ws ++ c :: r)
+    (hws : ∀ b ∈ ws, isWs b = true) (hc : (isLower c || isUpper c) = true)
+    (hcmd : svgCommand c st (l.adv (ws.length + 1)) = .ok st' l2) : svgLoop (fuel + 1) st l = svgLoop fuel st' l2 := by
+  rw [loop_letter fuel st h hws hc, svgAfterCmd, hcmd]
+
+/-- glue for implicit repetition: from a `cmd_*` result *at the current position* to a loop step -/
+theorem step_implicit (fuel : Nat) (st st' : SvgSt K) {l l2 : Lx} {ws r : List UInt8} {b : UInt8} (h : l.rem = ws ++ b :: r)
+    (hws : ∀ b ∈ ws, isWs b = true) (hb : isNumStart b = true) (hlc : st.last_cmd ≠ 0) (hinv : st.Inv)
+    (hcmd : svgCommand st.last_cmd st l = .ok st' l2) : svgLoop (fuel + 1) st l = svgLoop fuel st' l2 := by
+  rw [loop_implicit fuel st h hws hb hlc hinv, svgAfterCmd, hcmd]
+
+/-- e.g. a second coordinate triple after `C`/`c` without a letter is another `CurveTo` -/
+theorem step_curveTo_implicit (fuel : Nat) (st : SvgSt K) (l : Lx) (r : List UInt8)
+    (hc : st.last_cmd = 99 ∨ st.last_cmd = 67) (q1 q2 q3 : PtChunk)
+    (hrem : l.rem = q1.bytes ++ (q2.bytes ++ (q3.bytes ++ r))) (hq1 : q1.Ok (q2.bytes ++ (q3.bytes ++ r)))
+    (hq2 : q2.Ok (q3.bytes ++ r)) (hq3 : q3.Ok r) (hp : st.path ≠ []) :
+    svgLoop (fuel + 1) st l =
+      svgLoop fuel
+        (let p1 := relPt st.last_cmd st.last_pt q1.value
+         let p2 := relPt st.last_cmd st.last_pt q2.value
+         let p3 := relPt st.last_cmd st.last_pt q3.value
+         { st.flushed with
+            path := st.flushed.path ++ [.CurveTo p1 p2 p3], last_ctrl := some p2, last_pt := p3, last_cmd := st.last_cmd })
+        (l.adv (q1.bytes.length + q2.bytes.length + q3.bytes.length)) := by
+  obtain ⟨b, br, hb, hnum⟩ := hq1.1.valid.bytes_head
+  have hrem' : l.rem = q1.x.ws ++ b :: (br ++ q1.x.sep ++ q1.y.bytes ++ (q2.bytes ++ (q3.bytes ++ r))) := by
+    rw [hrem]; simp [PtChunk.bytes, NumChunk.bytes, hb]
+  have hinv : st.Inv := by unfold SvgSt.Inv; rcases hc with h | h <;> rw [h] <;> decide
+  exact step_implicit fuel st _ hrem' hq1.1.ws hnum (by rcases hc with h | h <;> rw [h] <;> decide) hinv
+    (cmd_curveTo st l r st.last_cmd hc q1 q2 q3 hrem hq1 hq2 hq3 hp)
+
+/-- end of the commands: only white space left -/
+theorem step_end (fuel : Nat) (st : SvgSt K) (l : Lx) (ws : List UInt8) (hrem : l.rem = ws)
+    (hws : ∀ b ∈ ws, isWs b = true) : svgLoop (fuel + 1) st l = .ok st.path :=
+  svgLoop_step_end fuel (getCmd_end_rem st.last_cmd hrem hws)
+
+/-- fuel-free form of a loop iteration (`svgRun st l` = the loop with the fuel `fromSvgBytes` provides for the bytes left;
+    `fromSvgBytes data = svgRun svgInit ⟨data, 0⟩` by `fromSvgBytes_eq_run`): the next iteration starts from a lexer and state that
+    again satisfy the hypotheses, so the steps chain -/
+theorem run_step {st st' : SvgSt K} {l l1 l2 : Lx} {c : UInt8} (hwf : l.ix ≤ l.data.size) (hinv : st.Inv)
+    (hg : getCmd st.last_cmd l = some (some c, l1)) (hs : svgCommand c st l1 = .ok st' l2) :
+    svgRun st l = svgRun st' l2 ∧ l2.ix ≤ l2.data.size ∧ st'.Inv :=
+  svgRun_step hwf hinv hg hs
+
+/-- the step lemmas compose: `ws* M x y x' y' ws* Z ws*` with arbitrary white space, separators and number spellings parses to
+    `[MoveTo (x,y), LineTo (x',y'), ClosePath]` -/
+theorem parse_moveTo_lineTo_close (data : ByteArray) (ws0 ws1 ws2 : List UInt8) (q1 q2 : PtChunk)
+    (hdata : data.data.toList = ws0 ++ 77 :: (q1.bytes ++ (q2.bytes ++ (ws1 ++ 90 :: ws2))))
+    (hws0 : ∀ b ∈ ws0, isWs b = true) (hws1 : ∀ b ∈ ws1, isWs b = true) (hws2 : ∀ b ∈ ws2, isWs b = true)
+    (hq1 : q1.Ok (q2.bytes ++ (ws1 ++ 90 :: ws2))) (hq2 : q2.Ok (ws1 ++ 90 :: ws2)) :
+    fromSvgBytes (K := K) data = .ok [.MoveTo q1.value, .LineTo q2.value, .ClosePath] := by
+  have hsize : data.size = (ws0 ++ 77 :: (q1.bytes ++ (q2.bytes ++ (ws1 ++ 90 :: ws2)))).length := by
+    rw [← hdata]; simp
+  obtain ⟨b, br, hb, -⟩ := hq1.1.valid.bytes_head
+  have hq1len : 0 < q1.bytes.length := by simp [PtChunk.bytes, NumChunk.bytes, hb]; omega
+  obtain ⟨f, hf⟩ : ∃ f, data.size + 1 = f + 1 + 1 + 1 + 1 := ⟨data.size - 3, by
+    rw [hsize]; simp only [List.length_append, List.length_cons]; omega⟩
+  unfold fromSvgBytes
+  rw [hf]
+  have hrem0 : Lx.rem ⟨data, 0⟩ = ws0 ++ 77 :: (q1.bytes ++ (q2.bytes ++ (ws1 ++ 90 :: ws2))) := by
+    simp [Lx.rem, hdata]
+  rw [step_moveTo _ _ _ ws0 _ 77 (.inr rfl) q1 hrem0 hws0 hq1]
+  have hrem1 : (Lx.adv ⟨data, 0⟩ (ws0.length + 1 + q1.bytes.length)).rem = q2.bytes ++ (ws1 ++ 90 :: ws2) := by
+    have : Lx.rem ⟨data, 0⟩ = (ws0 ++ 77 :: q1.bytes) ++ (q2.bytes ++ (ws1 ++ 90 :: ws2)) := by rw [hrem0]; simp
+    have h := Lx.rem_adv this
+    rw [show (ws0 ++ 77 :: q1.bytes).length = ws0.length + 1 + q1.bytes.length by simp; omega] at h
+    exact h
+  simp only [relPt_upper (c := 77) (by decide)]
+  rw [step_lineTo_implicit _ _ _ _ (.inr rfl) q2 hrem1 hq2 (by simp)]
+  have hrem2 : ((Lx.adv ⟨data, 0⟩ (ws0.length + 1 + q1.bytes.length)).adv q2.bytes.length).rem = ws1 ++ 90 :: ws2 :=
+    Lx.rem_adv hrem1
+  rw [step_close _ _ _ ws1 ws2 90 (.inr rfl) hrem2 hws1 (by simp [SvgSt.flushed_path])]
+  have hrem3 := Lx.rem_adv (xs := ws1 ++ [90]) (r := ws2) (by rw [hrem2]; simp)
+  simp only [List.length_append, List.length_cons, List.length_nil, Nat.zero_add] at hrem3
+  rw [step_end _ _ _ ws2 hrem3 hws2]
+  simp [SvgSt.flushed_of_none, relPt_upper (c := 76) (by decide)]
+
+/-- an instance of the hypotheses of the step lemmas and of `parse_moveTo_lineTo_close`: the string `"M1,2 3 4 Z"` -/
+example :
+    let q1 : PtChunk := { x := { p := { ip := [49] }, sep := [44] }, y := { p := { ip := [50] }, sep := [32] } }
+    let q2 : PtChunk := { x := { p := { ip := [51] }, sep := [32] }, y := { p := { ip := [52] }, sep := [32] } }
+    "M1,2 3 4 Z".toUTF8.data.toList = [] ++ 77 :: (q1.bytes ++ (q2.bytes ++ ([] ++ 90 :: []))) ∧
+    q1.Ok (q2.bytes ++ ([] ++ 90 :: [])) ∧ q2.Ok ([] ++ 90 :: []) ∧
+    (q1.value : Point Rat) = ⟨1, 2⟩ ∧ (q2.value : Point Rat) = ⟨3, 4⟩ := by
+  refine ⟨by decide, ⟨⟨by decide, by decide, by decide, SepOk.comma (ws := []) (by decide)⟩,
+      ⟨by decide, by decide, by decide, SepOk.ws (by decide) (by decide)⟩⟩,
+    ⟨⟨by decide, by decide, by decide, SepOk.ws (by decide) (by decide)⟩,
+      ⟨by decide, by decide, by decide, SepOk.ws (by decide) (by decide)⟩⟩, by decide +kernel, by decide +kernel⟩
+
+/-! ## 8. Concrete evaluations over `Rat` (kernel evaluation of the model; `Rat` arithmetic is exact) -/
+
+/-- relative `m` followed by an implicit `l` whose first number carries a `+` -/
+example : fromSvg (K := Rat) "m1 1 +2 3" = .ok [.MoveTo ⟨1, 1⟩, .LineTo ⟨3, 4⟩] := by decide +kernel
+/-- `S` after `Q`: the first control point is the current point `(2,0)` (no reflection of a quadratic's control point) -/
+example : fromSvg (K := Rat) "M0 0Q1 1 2 0S4 1 5 0" =
+    .ok [.MoveTo ⟨0, 0⟩, .QuadTo ⟨1, 1⟩ ⟨2, 0⟩, .CurveTo ⟨2, 0⟩ ⟨4, 1⟩ ⟨5, 0⟩] := by decide +kernel
+/-- `T` after `C`: control point = current point `(3,0)` -/
+example : fromSvg (K := Rat) "M0 0C1 1 2 1 3 0T6 0" =
+    .ok [.MoveTo ⟨0, 0⟩, .CurveTo ⟨1, 1⟩ ⟨2, 1⟩ ⟨3, 0⟩, .QuadTo ⟨3, 0⟩ ⟨6, 0⟩] := by decide +kernel
+/-- `S` after `C` and `T` after `Q` do reflect -/
+example : fromSvg (K := Rat) "M0 0C1 1 2 1 3 0S5 1 6 0" =
+    .ok [.MoveTo ⟨0, 0⟩, .CurveTo ⟨1, 1⟩ ⟨2, 1⟩ ⟨3, 0⟩, .CurveTo ⟨4, -1⟩ ⟨5, 1⟩ ⟨6, 0⟩] := by decide +kernel
+example : fromSvg (K := Rat) "M0 0Q1 1 2 0T4 0" =
+    .ok [.MoveTo ⟨0, 0⟩, .QuadTo ⟨1, 1⟩ ⟨2, 0⟩, .QuadTo ⟨3, -1⟩ ⟨4, 0⟩] := by decide +kernel
+/-- after `Z` the control point is cleared and a drawing command first emits the implicit `MoveTo` -/
+example : fromSvg (K := Rat) "M0 0L1 0ZT2 2" =
+    .ok [.MoveTo ⟨0, 0⟩, .LineTo ⟨1, 0⟩, .ClosePath, .MoveTo ⟨0, 0⟩, .QuadTo ⟨0, 0⟩ ⟨2, 2⟩] := by decide +kernel
+example : fromSvg (K := Rat) "L1 1" = .err .uninitializedPath := by decide +kernel
+example : fromSvg (K := Rat) "M1 2 X" = .err (.unknownCommand 88) := by decide +kernel
+example : fromSvg (K := Rat) "M1e 2" = .err .wrong := by decide +kernel
+/-- packed spellings: no separator before a sign or a second period; exponents; `H`/`v` -/
+example : fromSvg (K := Rat) "M1.5e1-.5.5.25H3v-1z" =
+    .ok [.MoveTo ⟨15, -1/2⟩, .LineTo ⟨1/2, 1/4⟩, .LineTo ⟨3, 1/4⟩, .LineTo ⟨3, -3/4⟩, .ClosePath] := by decide +kernel
+/-- multi-byte UTF-8 is just bytes that are no letters: the loop ends silently -/
+example : fromSvg (K := Rat) "M1 2 é L3 4" = .ok [.MoveTo ⟨1, 2⟩] := by decide +kernel
+
 end Kurbo
